@@ -249,6 +249,41 @@ func (c *Ctx) Func(dir, name string) *Func {
 			c.Notes = append(c.Notes, fmt.Sprintf("anchor %s adopted successor %s", key, f.Name))
 		}
 	}
+	if f == nil {
+		// renamed: the only function of the package that is new since the reference tree and has the
+		// signature (receiver included) the lost function had there
+		refName := dir + "." + name
+		if i := strings.LastIndex(name, "."); i >= 0 {
+			refName = "" // methods: matched through the receiver in the signature below
+		}
+		want := ""
+		for n, sg := range referenceFuncs {
+			short := n
+			if j := strings.LastIndex(short, "."); j >= 0 && strings.HasSuffix(short, "."+name[strings.LastIndex(name, ".")+1:]) {
+				if refName != "" && n == refName {
+					want = sg
+				} else if refName == "" && strings.Contains(n, dir+".") && strings.Contains(n, name[:strings.LastIndex(name, ".")]+")") {
+					want = sg
+				}
+			}
+		}
+		if want != "" {
+			var cands []*Func
+			for _, g := range c.AllFuncs(dir) {
+				sf := c.SSAFunc(g)
+				if sf == nil {
+					continue
+				}
+				if _, known := referenceFuncs[funcName(sf)]; !known && sigString(g.Obj) == want {
+					cands = append(cands, g)
+				}
+			}
+			if len(cands) == 1 {
+				f = cands[0]
+				c.Notes = append(c.Notes, fmt.Sprintf("anchor %s adopted renamed successor %s", key, f.Name))
+			}
+		}
+	}
 	c.funcs[key] = f
 	return f
 }
@@ -309,8 +344,20 @@ func (c *Ctx) Check(cond bool, rule, construct string, pos token.Pos, okDetail, 
 	return cond
 }
 
-// Floor fails rule when fewer than n instances were matched (vacuity guard).
+// Floor guards a rule against vacuity: want is the number of instances counted
+// by hand on the reference tree. The obligation fails when fewer than 70 % of
+// them are still matched (the rule has gone blind); a smaller drop - a
+// refactoring merged or rewrote a few sites - is recorded, not alarmed on.
 func (c *Ctx) Floor(rule string, got, want int, what string) {
+	min := (want*7 + 9) / 10
+	if min < 1 {
+		min = 1
+	}
+	if got >= min && got < want {
+		c.Add(Obligation{Rule: rule, Construct: "floor:" + what, Status: OK,
+			Detail: fmt.Sprintf("matched %d %s (reference count %d, alarm below %d)", got, what, want, min)})
+		return
+	}
 	if got < want {
 		c.Add(Obligation{Rule: rule, Construct: "floor:" + what, Status: LOST,
 			Detail: fmt.Sprintf("matched %d %s, floor is %d (confirmed by hand on the pinned tree)", got, what, want), Nontrivial: true})
@@ -510,4 +557,88 @@ func ruleLess(a, b string) bool {
 func splitRule(r string) []string {
 	r = strings.TrimPrefix(r, "R")
 	return strings.FieldsFunc(r, func(c rune) bool { return c == '.' || c == '/' })
+}
+
+// AllSSAFuncNames lists the path-table names of every module function that has
+// a source declaration.
+func (c *Ctx) AllSSAFuncNames() []string {
+	var out []string
+	for _, d := range c.ModuleDirs() {
+		for _, f := range c.AllFuncs(d) {
+			if sf := c.SSAFunc(f); sf != nil {
+				out = append(out, funcName(sf)+"\t"+sigString(f.Obj))
+			}
+		}
+	}
+	sort.Strings(out)
+	return out
+}
+
+// sigString renders a function's signature without parameter names.
+func sigString(fn *types.Func) string {
+	sig := fn.Type().(*types.Signature)
+	var b strings.Builder
+	tuple := func(t *types.Tuple) {
+		b.WriteString("(")
+		for i := 0; i < t.Len(); i++ {
+			if i > 0 {
+				b.WriteString(", ")
+			}
+			b.WriteString(types.TypeString(t.At(i).Type(), nil))
+		}
+		b.WriteString(")")
+	}
+	if r := sig.Recv(); r != nil {
+		b.WriteString("[" + types.TypeString(r.Type(), nil) + "]")
+	}
+	tuple(sig.Params())
+	if sig.Variadic() {
+		b.WriteString("...")
+	}
+	tuple(sig.Results())
+	return b.String()
+}
+
+// IsNewFunc reports whether f was introduced after the reference tree.
+func (c *Ctx) IsNewFunc(f *Func) bool {
+	sf := c.SSAFunc(f)
+	if sf == nil {
+		return false
+	}
+	_, known := referenceFuncs[funcName(sf)]
+	return !known
+}
+
+// WithNewHelpers returns f followed by the functions it calls (two hops) that
+// were introduced after the reference tree: the code of f as it was before
+// helpers were extracted from it.
+func (c *Ctx) WithNewHelpers(f *Func) []*Func {
+	byObj := map[types.Object]*Func{}
+	for _, d := range c.ModuleDirs() {
+		for _, g := range c.AllFuncs(d) {
+			byObj[g.Obj] = g
+		}
+	}
+	out := []*Func{f}
+	seen := map[*Func]bool{f: true}
+	frontier := []*Func{f}
+	for hop := 0; hop < 2; hop++ {
+		var next []*Func
+		for _, g := range frontier {
+			ast.Inspect(g.Decl.Body, func(n ast.Node) bool {
+				call, ok := n.(*ast.CallExpr)
+				if !ok {
+					return true
+				}
+				if h := byObj[Callee(g.Pkg.TypesInfo, call)]; h != nil && !seen[h] && c.IsNewFunc(h) {
+					seen[h] = true
+					out = append(out, h)
+					next = append(next, h)
+				}
+				return true
+			})
+		}
+		frontier = next
+	}
+	return out
 }
